@@ -281,8 +281,10 @@ var pairs = [][]reqSpec{
 // dfs2 cases come in blocks of 36: 24 base variants (6 pairs x keep x failfirst), 8 with an
 // upstream middleware writing constant headers, 4 on the default memory storage (nil Storage:
 // only lock / handler boundaries), 4 with a near key (see nearPairs; the second half of nearPairs
-// in odd blocks). The block number shifts the response shapes.
-const dfs2Block = 40
+// in odd blocks), 4 with a request the middleware must leave alone although its key header is
+// malformed or names a recorded key (safe method; exempted by a custom Next). The block number
+// shifts the response shapes.
+const dfs2Block = 44
 
 func dfs2Scenario(i int) *scenario {
 	blk, j := i/dfs2Block, i%dfs2Block
@@ -310,6 +312,19 @@ func dfs2Scenario(i int) *scenario {
 			sc.Keep = keepList
 		}
 		sc.FailFirst = j == 3
+		return sc
+	case j >= 40:
+		j -= 40
+		by := []reqSpec{
+			keyedReq("GET", malformedKeys[blk%len(malformedKeys)]),
+			{Method: "POST", Key: malformedKeys[(blk+1)%len(malformedKeys)], Skip: true},
+			{Method: "PUT", Key: keyPool[0], Skip: true},
+			keyedReq([]string{"OPTIONS", "HEAD", "GET"}[blk%3], malformedKeys[(blk+2)%len(malformedKeys)]),
+		}[j]
+		sc := &scenario{Reqs: []reqSpec{dup("POST"), by}, ShapeBase: (2*j + blk) % len(shapes)}
+		if j%2 == 1 {
+			sc.Keep = keepList
+		}
 		return sc
 	default:
 		j -= 36
@@ -438,7 +453,15 @@ func genScenario(r *gen.Rand, n int) *scenario {
 			case 2:
 				sc.Reqs = append(sc.Reqs, keyless(gen.Pick(r, append(unsafe, safe...))))
 			case 3:
-				sc.Reqs = append(sc.Reqs, safeKeyed(gen.Pick(r, safe)))
+				// must be left alone by the middleware whatever the key header holds
+				switch r.Intn(4) {
+				case 0:
+					sc.Reqs = append(sc.Reqs, keyedReq(gen.Pick(r, safe), gen.Pick(r, malformedKeys)))
+				case 1:
+					sc.Reqs = append(sc.Reqs, reqSpec{Method: gen.Pick(r, unsafe), Key: gen.Pick(r, append([]string{keyPool[0]}, malformedKeys...)), Skip: true})
+				default:
+					sc.Reqs = append(sc.Reqs, safeKeyed(gen.Pick(r, safe)))
+				}
 			default:
 				sc.Reqs = append(sc.Reqs, reqSpec{Method: gen.Pick(r, unsafe), Key: keyPool[2]})
 			}
